@@ -366,3 +366,43 @@ class K:
             s.vis = INTERNAL
             s.direction = NONE
 """, ref_funcs={"K.f"}, ref_consts=set())
+# capture: helper local clashes with a caller variable that is live after the call
+same("""
+def _norm(v):
+    x = v.strip()
+    x = x.lower()
+    return x
+def f(a, b):
+    x = g(a)
+    y = _norm(b)
+    return x + y
+""", """
+def f(a, b):
+    x = g(a)
+    return x + b.strip().lower()
+""", ref_funcs={"f"}, ref_consts=set())
+# flags
+same("""
+def _op(fn, me, other, reflected=False):
+    if isinstance(other, P):
+        rescale = True
+    elif isinstance(other, (int, str)):
+        other = P.new(other)
+        rescale = False
+    else:
+        return NotImplemented
+    if reflected:
+        result = fn(lhs=other, rhs=me)
+    else:
+        result = fn(lhs=me, rhs=other)
+    return result.scale() if rescale else result
+def f(self, other):
+    return _op(_sub, self, other, reflected=True)
+""", """
+def f(self, other):
+    if isinstance(other, P):
+        return _sub(lhs=other, rhs=self).scale()
+    elif isinstance(other, (int, str)):
+        return _sub(lhs=P.new(other), rhs=self)
+    return NotImplemented
+""", ref_funcs={"f"}, ref_consts=set())
